@@ -13,7 +13,8 @@ Verdict(r) ==
          IF r.L <= 0 THEN (IF r.starts = 0 /\ r.cancelled THEN "ok" ELSE "bad")
          ELSE IF r.starts = 1 /\ r.alarm \in (r.L - 2)..r.L THEN "ok" ELSE "bad"
     [] r.e = "Kill" ->
-         IF (IF "stubborn" \in DOMAIN r /\ r.stubborn THEN StubbornKillOk(r.L, r.W, r.wallms, r.jsig) ELSE KillOk(r.L, r.W, r.wallms, r.jsig, r.jexit)) THEN "ok" ELSE "bad"
+         IF (IF "held" \in DOMAIN r /\ r.held > 0 THEN HeldKillOk(r.L, r.held, r.wallms, r.jsig)
+             ELSE IF "stubborn" \in DOMAIN r /\ r.stubborn THEN StubbornKillOk(r.L, r.W, r.wallms, r.jsig) ELSE KillOk(r.L, r.W, r.wallms, r.jsig, r.jexit)) THEN "ok" ELSE "bad"
     [] r.e = "KillLocked" ->
          IF LockedKillOk(r.L, r.W, r.rc, r.jentries, r.jsig, r.jexit) THEN "ok" ELSE "bad"
     [] r.e = "Req" ->
